@@ -1069,7 +1069,7 @@ PROPS = {
                 anchors=['engine_core/src/engine/heuristic.rs', 'engine_core/src/engine/heuristic/simple.rs', 'engine_core/src/engine/search.rs']),
     'C12': dict(modules=['Inkayaku.Props.C12'], theorems=['Inkayaku.C12.wf_repr', 'Inkayaku.C12.print_parse_board', 'Inkayaku.C12.print_parse_legal', 'Inkayaku.C12.decode_correct', 'Inkayaku.C12.decode_correct_four', 'Inkayaku.C12.decode_then_print', 'Inkayaku.C12.four_field_defaults', 'Inkayaku.C12.parse_print_canonical', 'Inkayaku.C12.parse_print_same', 'Inkayaku.C12.parse_print_four', 'Inkayaku.C12.reject_field_count', 'Inkayaku.C12.reject_illegal_char', 'Inkayaku.C12.reject_rank_sum', 'Inkayaku.C12.reject_adjacent_digits', 'Inkayaku.C12.reject_bad_side', 'Inkayaku.C12.reject_bad_castling', 'Inkayaku.C12.reject_bad_ep', 'Inkayaku.C12.reject_bad_clock', 'Inkayaku.C12.parse_no_panic_branch'], cases=c12_cases, anchors=['core/src/fen.rs', 'board/src/board.rs']),
     'C13': dict(modules=['Inkayaku.Props.C13', 'Inkayaku.Props.Closure'], theorems=['Inkayaku.Closure.findUci_ok_iff_legal_wf', 'Inkayaku.Closure.makeAllUci_all_or_nothing_wf', 'Inkayaku.Closure.wfStep', 'Inkayaku.C13.findUci_pure', 'Inkayaku.C13.findUci_ok_iff', 'Inkayaku.C13.findUci_ok_iff_legal', 'Inkayaku.C13.findUci_err_kinds', 'Inkayaku.C13.makeUci_spec', 'Inkayaku.C13.makeAllUci_all_or_nothing', 'Inkayaku.C13.findUci_idempotent', 'Inkayaku.C13.uciToSan_pure', 'Inkayaku.C13.uciToSan_err_iff', 'Inkayaku.C13.sanToMove_legal'], cases=c13_cases, anchors=BOARD_ANCHORS),
-    'C14': dict(modules=['Inkayaku.Props.C14'], theorems=['Inkayaku.C14.sanCaptures_render', 'Inkayaku.C14.sanCaptures_complete', 'Inkayaku.C14.sanCaptures_none', 'Inkayaku.C14.check_mark', 'Inkayaku.C14.check_mark_rules', 'Inkayaku.C14.never_hash_for_stalemate', 'Inkayaku.C14.disamb_standard', 'Inkayaku.C14.disamb_unique', 'Inkayaku.C14.text_standard', 'Inkayaku.C14.san_roundtrip', 'Inkayaku.C14.san_roundtrip_wf', 'Inkayaku.C14.sanToMove_sound', 'Inkayaku.C14.sanToMove_some_iff', 'Inkayaku.C14.sanToMove_none_iff'], cases=c14_cases, anchors=BOARD_ANCHORS),
+    'C14': dict(modules=['Inkayaku.Props.C14', 'Inkayaku.Props.C14Spec'], theorems=['Inkayaku.C14Spec.san_eq_spec', 'Inkayaku.C14Spec.uciToSan_eq_spec', 'Inkayaku.C14.sanCaptures_render', 'Inkayaku.C14.sanCaptures_complete', 'Inkayaku.C14.sanCaptures_none', 'Inkayaku.C14.check_mark', 'Inkayaku.C14.check_mark_rules', 'Inkayaku.C14.never_hash_for_stalemate', 'Inkayaku.C14.disamb_standard', 'Inkayaku.C14.disamb_unique', 'Inkayaku.C14.text_standard', 'Inkayaku.C14.san_roundtrip', 'Inkayaku.C14.san_roundtrip_wf', 'Inkayaku.C14.sanToMove_sound', 'Inkayaku.C14.sanToMove_some_iff', 'Inkayaku.C14.sanToMove_none_iff'], cases=c14_cases, anchors=BOARD_ANCHORS),
     'C15': dict(modules=['Inkayaku.Props.C15'],
                 theorems=['Inkayaku.C15.tokenize_pad', 'Inkayaku.C15.ucimove_roundtrip', 'Inkayaku.C15.parse_render_simple',
                           'Inkayaku.C15.parse_render_position', 'Inkayaku.C15.parse_render_go', 'Inkayaku.C15.parse_render',
@@ -1077,12 +1077,13 @@ PROPS = {
                           'Inkayaku.C15.bad_move', 'Inkayaku.C15.bad_fen', 'Inkayaku.C15.missing_param'],
                 cases=c15_cases, anchors=['uci/src/uci/parser.rs', 'uci/src/uci.rs', 'core/src/constants/square.rs', 'core/src/fen.rs'],
                 assumptions=['Rust str::trim / split / integer parsing as modelled (std library trusted)']),
-    'C17': dict(modules=['Inkayaku.Props.C17'],
+    'C17': dict(modules=['Inkayaku.Props.C17', 'Inkayaku.Props.C17Replay'],
                 theorems=['Inkayaku.C17.reader_bytes', 'Inkayaku.C17.chunk_independent', 'Inkayaku.C17.parse_render', 'Inkayaku.C17.c17',
-                          'Inkayaku.C17.fuel_adequate'],
+                          'Inkayaku.C17.fuel_adequate', 'Inkayaku.C17Replay.replay_sanLine', 'Inkayaku.C17Replay.sanLine_some',
+                          'Inkayaku.C17Replay.wfSan_of_sanLine', 'Inkayaku.C17Replay.pgn_replay'],
                 cases=c17_cases, anchors=['pgn/src/reader.rs', 'pgn_test/src/main.rs', 'board/src/board.rs'],
                 assumptions=['std::io::Read contract: read returns 0 only at end of input']),
-    'C19': dict(modules=['Inkayaku.Props.C19'], theorems=['Inkayaku.Props.C19.schema_names_documented', 'Inkayaku.Props.C19.perf_keys_documented', 'Inkayaku.Props.C19.moves_split', 'Inkayaku.Props.C19.moves_split_uci', 'Inkayaku.Props.C19.decode_encode', 'Inkayaku.Props.C19.wf_generated', 'Inkayaku.Props.C19.parse_render_json', 'Inkayaku.Props.C19.decode_text_roundtrip'],
+    'C19': dict(modules=['Inkayaku.Props.C19', 'Inkayaku.Props.C19Moves'], theorems=['Inkayaku.Props.C19Moves.uci_shape_parses', 'Inkayaku.Props.C19Moves.moves_decode_and_parse', 'Inkayaku.Props.C19Moves.moves_decode_parse_all', 'Inkayaku.Props.C19.schema_names_documented', 'Inkayaku.Props.C19.perf_keys_documented', 'Inkayaku.Props.C19.moves_split', 'Inkayaku.Props.C19.moves_split_uci', 'Inkayaku.Props.C19.decode_encode', 'Inkayaku.Props.C19.wf_generated', 'Inkayaku.Props.C19.parse_render_json', 'Inkayaku.Props.C19.decode_text_roundtrip'],
                 cases=c19_cases, needs_lichess=True,
                 anchors=['lichess_api/src/api/bot_game_state_response.rs', 'lichess_api/src/api/bot_event_response.rs', 'lichess_api/src/api/response.rs'],
                 assumptions=['serde / serde_json semantics as modelled (libraries trusted)', 'documented wire names as written in Spec/LichessDoc.lean']),
